@@ -430,6 +430,9 @@ func (c *kCtx) try1(hist []int, op int) (string, []int, bool, bool) {
 	if len(en) == 0 || len(all) >= c.sc.Horizon {
 		if len(all) >= c.sc.Horizon && len(en) > 0 {
 			c.r.Cap(fmt.Sprintf("horizon of %d actions reached in scenario %s", c.sc.Horizon, c.sc.Name))
+			if os.Getenv("VERIF_DEBUG_HORIZON") != "" {
+				c.r.Cap(fmt.Sprintf("HORIZON %s: %v", c.sc.Name, c.names(hist, op)))
+			}
 		}
 		if c.checkC13 {
 			c.drain(k, hist, op)
@@ -583,7 +586,7 @@ func kRun(r *vk.Run, prop string, scenarios []kScenario, c09, c13 bool, rule str
 
 func TestVerifC09(t *testing.T) {
 	r := vk.Start("C09", "model_checking")
-	h := vk.Pick(r, 26, 34)
+	h := vk.Pick(r, 34, 44)
 	var scs []kScenario
 	for _, init := range []string{"R", "Y", "RR", "RY", "YY"} {
 		b := vk.Pick(r, 3, 4)
